@@ -584,7 +584,9 @@ func exec(op string) string {
 			return r, describePuts(rs.log)
 		}
 		r1, p1 := run(h.prodMem, h.recMem)
+		progress.Add(1)
 		r2, p2 := run(h.prodBolt, h.recBolt)
+		progress.Add(1)
 		both := "same"
 		if r1 != r2 || p1 != p2 {
 			both = "differ:" + r2 + ":" + p2
@@ -613,6 +615,7 @@ func exec(op string) string {
 				r = "err"
 			}
 			for i := 0; i < n; i++ {
+				progress.Add(1)
 				val := []byte{byte(i >> 8), byte(i)}
 				nm := append(pfx.Clone(), enc.Component{Typ: enc.TypeGenericNameComponent, Val: val})
 				d, err := spec.Spec{}.MakeData(nm, &ndn.DataConfig{ContentType: &ct}, enc.Wire{val}, sec.NewSha256Signer())
@@ -793,7 +796,7 @@ func runExec(t *testing.T) {
 		t.Fatal(err)
 	}
 	// watchdog on REAL time (outside any bubble): a spinning client goroutine never lets the bubble idle
-	limit := int64(common.EnvInt("VERIF_C15_WATCHDOG_S", 10))
+	limit := int64(common.EnvInt("VERIF_C15_WATCHDOG_S", 20))
 	go func() {
 		last, same := int64(-1), int64(0)
 		for {
